@@ -51,6 +51,13 @@ std::string span_ops(const Sp& s, const long* b, const Case& c)
   if (f == "back") { const long& r = s.back(); return "pos=" + ts(&r - b) + " v=" + ts(r); }
   if (f == "iter") { VL v; for (auto it = s.begin(); it != s.end(); ++it) v.push_back(*it); VL r; for (auto it = s.rbegin(); it != s.rend(); ++it) r.push_back(*it); return "fw=" + join(v) + " rv=" + join(r); }
   if (f == "conv") { DS::span<const long> d(s); return desc(d, b); }
+  if (f == "asg") {   // copy assignment, const/reverse iterators, default construction (dynamic extent)
+    Sp t(s); Sp u(t); u = s;
+    bool ok = u.data() == s.data() && u.size() == s.size() && (s.cend() - s.cbegin()) == std::ptrdiff_t(s.size()) &&
+              (s.rend() - s.rbegin()) == std::ptrdiff_t(s.size()) && s.cbegin() == s.begin();   // crbegin/crend: probe 6
+    if constexpr (Sp::extent == DS::dynamic_extent) { Sp z; ok = ok && z.size() == 0 && z.empty() && z.data() == nullptr; z = s; ok = ok && z.data() == s.data() && z.size() == s.size(); }
+    return desc(u, b) + " ok=" + ts(ok);
+  }
   // compile-time counts/offsets (static template versions); only valid combinations are generated
   if constexpr (Sp::extent == DS::dynamic_extent || Sp::extent >= 3) {
     if (f == "sfirst") { switch (a) { case 0: return desc(s.template first<0>(), b); case 1: return desc(s.template first<1>(), b); case 2: return desc(s.template first<2>(), b); case 3: return desc(s.template first<3>(), b); } }
@@ -119,6 +126,7 @@ int main(int argc, char** argv)
         else if (c.op.rfind("p3", 0) == 0) out = probe3(c);
         else if (c.op.rfind("p4", 0) == 0) out = probe4(c);
         else if (c.op.rfind("p5", 0) == 0) out = probe5(c);
+        else if (c.op.rfind("p6", 0) == 0) out = probe6(c);
         else out = "NO-INSTANCE " + key;
       }
     } catch (const std::exception& e) { out = std::string("THROWN ") + e.what(); }
